@@ -98,6 +98,9 @@ func genComputeCases(r *Rng, tier string, forC02 bool) []*Case {
 			// many newcomers: more than 32 peers that nobody trusts (their rows of C^T*t are zero products)
 			// around a small core, in a graph wider than MulVec's worker pool
 			n = 40 + r.Intn(30)
+			if k == 1 || (tier != "quick" && k%200 == 0) {
+				n = 257 + 2*r.Intn(70) // odd and beyond 256 rows: no chunking of the rows may lose the tail
+			}
 			core := 3 + r.Intn(4)
 			c = Mat{Major: n, Minor: n, Rows: make([][]Ent, n)}
 			for i := 0; i < n; i++ {
